@@ -40,7 +40,8 @@ PROBE_ISOLATED = True
 def strategy(tier):
     from hypothesis import strategies as st
     # v2 pages of repeated columns are a recorded finding (C15-v2-nested): drawn in 1 of 8 cases only
-    return st.integers(0, 7).flatmap(lambda k: plans.nested_plan(thorough=(tier == "thorough"), allow_v2=(k == 0)))
+    # ... except the one v2 layout the library does assemble (dictionary pages holding nulls, optional outer level)
+    return st.integers(0, 8).flatmap(lambda k: plans.nested_plan(thorough=(tier == "thorough"), allow_v2=(k in (0, 8)), v2_working=(k == 8)))
 
 
 def _eq_scalar(kind, e, g):
@@ -121,6 +122,9 @@ def run_case(case):
     labels += ["outer_opt" if c["outer_opt"] else "outer_req" for c in case["cols"]]
     labels += ["inner_opt" if c["inner_opt"] else "inner_req" for c in case["cols"]]
     labels.append("pages:%d" % min(feats.get("max_pages_per_chunk", 1), 4))
+    if 2 in feats.get("page_versions", []):
+        from vf.finding_predicates import v2_nested_working_region
+        labels.append("v2:assembled_layout" if v2_nested_working_region(case) else "v2:outside_assembled_layout(C15-v2-nested)")
     with common.Scratch() as d:
         path = os.path.join(d, "n.parquet")
         with open(path, "wb") as f:
